@@ -141,6 +141,8 @@ package domain
 //@ spec func SpecIterPos(i *Iterator) int = i.position
 //@ spec func SpecIterValid(i *Iterator) bool = i.valid
 //@ spec func SpecIterLen(i *Iterator) int = len(i.idx.mu.pointers)
+//@ spec func SpecIterIdx(i *Iterator) *index = i.idx
+//@ spec func SpecIterBounds(i *Iterator) telem.TimeRange = i.Bounds
 //@ spec func SpecIterDomainAt(i *Iterator, k int) telem.TimeRange = i.idx.mu.pointers[k].TimeRange
 //@ spec func SpecIterWF(i *Iterator) bool = i.idx != nil && WF(i.idx.mu.pointers) && validTR(i.Bounds)
 //@ # a valid iterator sits on a domain of the index that overlaps its bounds
@@ -157,16 +159,16 @@ package domain
 //@ func (i *Iterator) Next() (ok bool)
 //@   requires SpecIterWF(i) && SpecIterOK(i)
 //@   ensures  SpecIterOK(i) && ok == i.valid
-//@   ensures  ok ==> i.position == old(i.position)+1
+//@   ensures  ok ==> i.position == old(i.position)+1 && old(i.valid)
 //@   ensures  !ok ==> i.position == old(i.position) && i.currPtr == old(i.currPtr)
 //@   ensures  !ok && old(i.valid) ==> old(i.position)+1 >= len(i.idx.mu.pointers) || !telem.SpecOvl(i.idx.mu.pointers[old(i.position)+1].TimeRange, i.Bounds)
 //@   modifies &i.valid, &i.currPtr, &i.position
 //@ func (i *Iterator) Prev() (ok bool)
 //@   requires SpecIterWF(i) && SpecIterOK(i)
 //@   ensures  SpecIterOK(i) && ok == i.valid
-//@   ensures  ok ==> i.position == old(i.position)-1
+//@   ensures  ok ==> i.position == old(i.position)-1 && old(i.valid)
 //@   ensures  !ok ==> i.currPtr == old(i.currPtr)
-//@   ensures  i.position <= old(i.position) && i.position >= old(i.position)-1
+//@   ensures  i.position <= old(i.position) && i.position >= old(i.position)-1 && (i.position != old(i.position) ==> old(i.valid))
 //@   modifies &i.valid, &i.currPtr, &i.position
 //@ func (i *Iterator) SeekLE(ctx context.Context, stamp telem.TimeStamp) (ok bool)
 //@   requires SpecIterWF(i) && stamp >= 0 && (i.closed ==> !i.valid)
